@@ -1703,9 +1703,12 @@ def solve_sequence(name, texts, intern):
     rows = []
     for text in texts:
         tokens = tuple(tokens_of(text))
+        # the reference answer comes from a FRESH object each time: nothing an earlier call may have left on the
+        # shared object (a flag, a cache) can reach it
+        fresh = dict(pending_objects(name))
         for longhand, pend in SOLVE_OBJECTS:
             try:
-                alone = f'ok:{intern(pend.validate(list(tokens), longhand))}' if tokens else 'empty'
+                alone = f'ok:{intern(fresh[longhand].validate(list(tokens), longhand))}' if tokens else 'empty'
             except Exception as exc:  # noqa: BLE001
                 alone = real.fail_atom(exc)
             out, warnings = solve_call(pend, tokens, longhand, intern)
@@ -1714,6 +1717,51 @@ def solve_sequence(name, texts, intern):
 
 
 SOLVE_OBJECTS = []
+
+
+@__import__('functools').lru_cache(maxsize=None)
+def lookalike_values(name):
+    """Pairs of value texts the shorthand `name` accepts that are token-for-token alike at the top level and differ
+    only INSIDE a function or a bracket block (rgb(255,0,0) / rgb(0,0,255), repeat(2, 50px) / repeat(4, 25px),
+    [a] / [b]), or only in the spelling of one token (1px / 1.0px, red / RED): what a per-declaration cache keyed on
+    a lossy view of the tokens would confuse.  Built from the own grammar of the longhands (probed)."""
+    longhands = [n for n, _ in pending_objects(name)]
+    atoms = []
+    for longhand in longhands:
+        for a in G.accepted_singles(longhand):
+            if a not in atoms and 'var(' not in a and 'attr(' not in a:
+                atoms.append(a)
+    extra = ['rgb(255, 0, 0)', 'rgb(0, 0, 255)', 'repeat(2, 50px)', 'repeat(4, 25px)', 'minmax(10px, 1fr)',
+             'minmax(20px, 2fr)', '[a]', '[b]', 'linear-gradient(red, blue)', 'linear-gradient(blue, red)',
+             'translate(1px, 2px)', 'translate(3px, 4px)', 'fit-content(10px)', 'fit-content(20px)']
+    atoms += [a for a in extra if a not in atoms]
+    groups = {}
+    for a in atoms:
+        if '(' in a or a.startswith('['):
+            head = a.split('(')[0].lower() if '(' in a else '['
+            groups.setdefault(head, []).append(a)
+    plain = [a for a in atoms if '(' not in a and not a.startswith('[') and a not in ('inherit', 'initial')]
+    accepts = lambda t: G.call_validator(name, t)[0] == 'ok'      # noqa: E731
+    contexts = ['{}'] + [f'{p} {{}}' for p in plain[:12]] + [f'{{}} {p}' for p in plain[:12]] + \
+        [f'{p} / {{}}' for p in plain[:6]] + [f'{p} {q} {{}}' for p in plain[:5] for q in plain[5:9]]
+    pairs = []
+    for head, members in sorted(groups.items()):
+        found = None
+        for ctx in contexts:
+            ok = [m for m in members if accepts(ctx.format(m))]
+            distinct = []
+            for m in ok:
+                if all(real.canon(G.call_validator(name, ctx.format(m))[1]) !=
+                       real.canon(G.call_validator(name, ctx.format(d))[1]) for d in distinct):
+                    distinct.append(m)
+                if len(distinct) == 2:
+                    break
+            if len(distinct) == 2:
+                found = (ctx.format(distinct[0]), ctx.format(distinct[1]))
+                break
+        if found:
+            pairs.append(found)
+    return tuple(pairs[:6])
 
 
 def sec_pending_solve(run):
@@ -1729,6 +1777,33 @@ def sec_pending_solve(run):
     names = [n for n in sorted(properties.PROPERTIES) if n.replace('-', '_') in INITIAL_VALUES]
     run.rng.shuffle(names)
     chosen = names[:run.n(50, len(names))] + SOLVE_SHORTHANDS
+    global SOLVE_OBJECTS
+    # fixed family first: every registered shorthand, look-alike values in a row on ONE shared object
+    for name in sorted(expanders.EXPANDERS):
+        try:
+            pairs = lookalike_values(name)
+        except Exception:  # noqa: BLE001 - reported by the funnel section
+            continue
+        for a, b in pairs:
+            try:
+                SOLVE_OBJECTS = pending_objects(name)
+            except Exception:  # noqa: BLE001
+                continue
+            if not SOLVE_OBJECTS:
+                continue
+            texts = [a, b, a, b]
+            rows = solve_sequence(name, texts, intern)
+            by_object = {}
+            for longhand, pend in SOLVE_OBJECTS:
+                by_object.setdefault(id(pend), []).append(longhand)
+            for longhands in by_object.values():
+                mine = [r for r in rows if r[0] in longhands]
+                calls = [[alone == 'empty', 'invalid' if alone == 'empty' else
+                          (['ok', alone[3:]] if alone.startswith('ok:') else alone)] for _, _, _, _, alone in mine]
+                impl = ' '.join(f'{out}/{"w" if warnings else "-"}' for _, _, out, warnings, _ in mine)
+                sec.add(sx.line('pending-solve', calls), impl,
+                        meta={'name': name, 'texts': texts, 'longhands': longhands}, nontrivial=True,
+                        tags=['look-alike', 'shorthand'])
     for name in chosen:
         if name in expanders.EXPANDERS:
             valid_pool = [G.value_text(run.rng, name, 'own') for _ in range(4)]
@@ -1743,7 +1818,6 @@ def sec_pending_solve(run):
             valid_pool = [valid] + [a for a in G.accepted_singles(name)[:6] if 'var(' not in a]
             invalid_pool = [invalid, '"x" 3deg', '!']
         for _ in range(run.n(3, 12)):
-            global SOLVE_OBJECTS
             try:
                 SOLVE_OBJECTS = pending_objects(name)
             except Exception:  # noqa: BLE001 - reported by the funnel section
@@ -1790,7 +1864,7 @@ def judge_pending_solve(meta):
             return (f'`{meta["name"]}: var(--v)` shared by several elements: with `--v: {text}` the longhand '
                     f'{longhand} is {"refused" if out == "invalid" else out} after the rule was applied to elements '
                     f'with --v = {sorted(set(earlier))}, but {alone} on a fresh object: var() is not the textual '
-                    f'substitution of each element\'s own value (an invalid value on one element changes others)')
+                    f'substitution of each element\'s own value (what one element gets depends on the values of the others)')
     return None
 
 
@@ -2941,14 +3015,31 @@ def sec_docs(run):
                                                   'invalid': invalid, 'sel': sel}, tags=['var-invalid'])
     # (7) one rule with var() shared by several elements whose custom property differs (valid for some, invalid for
     #     others): element by element it is the literal declaration of the element's own value
+    fixed_shared = [
+        ('border', {'a': '2px solid rgb(255, 0, 0)', 'b': '2px solid rgb(0, 0, 255)', 'c': '2px solid rgb(255, 0, 0)',
+                    'd': '2px solid rgb(0, 255, 0)'}),
+        ('background', {'a': 'linear-gradient(red, blue)', 'b': 'linear-gradient(blue, red)', 'c': 'rgb(255, 0, 0)',
+                        'd': 'rgb(0, 0, 255)'}),
+        ('grid-template', {'a': '20px / repeat(2, 50px)', 'b': '20px / repeat(4, 25px)', 'c': '20px / [x] 50px',
+                           'd': '20px / [y] 50px'}),
+        ('outline', {'a': '2px solid rgb(255, 0, 0)', 'b': '2px solid rgb(0, 0, 255)', 'c': '3px dotted', 'd': 'rgb(1, 2, 3)'}),
+    ]
+    cases = []
+    for prop, values in fixed_shared:
+        base = 'body{color: inherit}.t{display: grid}' if prop == 'grid-template' else 'body{color: inherit}'
+        cases.append({'prop': prop, 'values': values, 'after': False, 'lookalike': True,
+                      'var': base + f'.t{{{prop}: var(--v)}}' + ''.join(f'#{i}{{--v: {v}}}' for i, v in values.items()),
+                      'literal': base + ''.join(f'#{i}{{{prop}: {v}}}' for i, v in values.items())})
     for _ in range(run.n(45, 700)):
-        case = shared_var_case(rng)
+        cases.append(shared_var_case(rng))
+    for case in cases:
         if case is None:
             continue
         want, _ = render_fp(case['literal'], SHARED_BODY)
         got, exc = render_fp(case['var'], SHARED_BODY)
         sec.add(sx.line('echo', want), got, meta={'kind': 'var-shared', **case},
-                tags=['var-shared', *(['var-shared:valid-after-invalid'] if case['after'] else [])])
+                tags=['var-shared', *(['var-shared:valid-after-invalid'] if case['after'] else []),
+                      *(['var-shared:look-alike'] if case.get('lookalike') else [])])
     run.extra['known_crashes_skipped_in_documents'] = known
 
 
@@ -3882,7 +3973,7 @@ class C07(PropCheck):
         'grid-line': ['auto', 'line', 'invalid', 'span', 'n0', 'n1', 'n2', 'n3', 'n4'],
         'image-computer': ['linear', 'radial', 'other', 'background-image', 'border-image-source', 'mask-border-source'],
         'computed-units': ['nested', 'flat'] + [f'unit:{u}' for u, _ in UNIT_SPELLINGS_EXACT],
-        'pending-solve': ['valid-after-invalid', 'shorthand', 'longhand', 'warned'],
+        'pending-solve': ['valid-after-invalid', 'shorthand', 'longhand', 'warned', 'look-alike'],
         'sheet-funnel': ['probe-imported', 'probe-ignored', 'rule:no-content', 'rule:font-face', 'rule:other-at',
                          'rule:counter-style-ok', 'rule:counter-style-bad-name', 'rule:style-bad-selector',
                          'rule:style-no-declaration', 'rule:style-unknown-pseudo', 'rule:style-ok',
@@ -3896,7 +3987,7 @@ class C07(PropCheck):
                               'font-variant:invalid'],
         'var': ['acyclic-env', 'cyclic-env', 'check-var', 'parse-function', 'none', 'ok', 'cyclic-resolved'],
         'documents': ['invalid-vanish', 'units', 'var', 'var-invalid', 'unit-spelling:kept', 'unit-spelling:dropped',
-                      'var-shared', 'var-shared:valid-after-invalid'],
+                      'var-shared', 'var-shared:valid-after-invalid', 'var-shared:look-alike'],
     }
 
     def correspondence(self, run):
